@@ -432,18 +432,69 @@ func errIs(err error, s string) bool { return err != nil && err.Error() == s }
 // check ids that are violations for the calling property; a failing check that
 // is not owned stops the history silently (it is counted).
 func RunDecoderHistory(dc *DCase, st *core.Stats, owned map[string]bool) *DFail {
-	r := &DRun{dc: dc, st: st, owned: owned}
+	r, f, ok := newDRun(dc, st, owned)
+	if !ok {
+		return f
+	}
+	for i := range dc.Ops {
+		if f, stop := r.runOp(i); stop {
+			return f
+		}
+	}
+	return nil
+}
+
+// RunDecoderDuo executes two decoder histories on two objects interleaved:
+// bit i of sched tells whose operation comes next. which reports the object a
+// returned failure belongs to.
+func RunDecoderDuo(dcs [2]*DCase, sched []byte, st *core.Stats, owned map[string]bool) (f *DFail, which int) {
+	var rs [2]*DRun
+	for g := range rs {
+		r, f, ok := newDRun(dcs[g], st, owned)
+		if !ok {
+			return f, g
+		}
+		rs[g] = r
+	}
+	var next [2]int
+	var stopped [2]bool
+	for step := 0; ; step++ {
+		g := 0
+		if len(sched) > 0 {
+			g = int(sched[(step/8)%len(sched)]>>(uint(step)%8)) & 1
+		}
+		if stopped[g] || next[g] >= len(dcs[g].Ops) {
+			g = 1 - g
+		}
+		if stopped[g] || next[g] >= len(dcs[g].Ops) {
+			return nil, 0
+		}
+		f, stop := rs[g].runOp(next[g])
+		next[g]++
+		if f != nil {
+			return f, g
+		}
+		if stop {
+			stopped[g] = true
+		}
+	}
+}
+
+// newDRun creates the object under test and its model. ok is false if the
+// history cannot run (f may hold a failure).
+func newDRun(dc *DCase, st *core.Stats, owned map[string]bool) (r *DRun, f *DFail, ok bool) {
+	r = &DRun{dc: dc, st: st, owned: owned}
 	cfg := cfgOf(dc)
 	r.w = &planWriter{fault: dc.Fault}
 	var ierr error
 	if dc.SUT == "buffer" {
 		if pv := call(func() { ierr = r.buf.Init(cfg) }); pv != nil {
-			return &DFail{Check: "panic", Class: "panic-init", Msg: fmtPanic(pv)}
+			return nil, &DFail{Check: "panic", Class: "panic-init", Msg: fmtPanic(pv)}, false
 		}
 		r.W, r.B = r.buf.WindowSize, r.buf.BufferSize
 	} else {
 		if pv := call(func() { r.dec, ierr = lz.NewDecoder(dc.writerFor(r.w), cfg) }); pv != nil {
-			return &DFail{Check: "panic", Class: "panic-init", Msg: fmtPanic(pv)}
+			return nil, &DFail{Check: "panic", Class: "panic-init", Msg: fmtPanic(pv)}, false
 		}
 		c := cfg
 		c.SetDefaults()
@@ -451,35 +502,40 @@ func RunDecoderHistory(dc *DCase, st *core.Stats, owned map[string]bool) *DFail 
 	}
 	if ierr != nil {
 		st.Inc("config_rejected")
-		return nil
+		return nil, nil, false
 	}
 	st.Inc("histories")
 	if dc.Rich && dc.SUT == "decoder" {
 		st.Inc("histories_with_flushable_writer")
 	}
-	for i := range dc.Ops {
-		op := &dc.Ops[i]
-		r.sizeLimit() // records the largest geometry so far
-		if dc.SUT == "buffer" {
-			r.stepBuffer(i, op)
-		} else {
-			r.stepDecoder(i, op)
-		}
-		if r.fail != nil {
-			if owned[r.fail.Check] {
-				return r.fail
-			}
-			st.Inc("foreign_check_failed:" + r.fail.Check)
-			switch r.fail.Check {
-			case "refused-valid", "count-n", "off":
-				// the content model is still in step: the history goes on
-				r.fail = nil
-				continue
-			}
-			return nil
-		}
+	return r, nil, true
+}
+
+// runOp executes operation i. stop is set when the history ends here: with a
+// failure of a check the calling property owns (f), or silently.
+func (r *DRun) runOp(i int) (f *DFail, stop bool) {
+	dc, st := r.dc, r.st
+	op := &dc.Ops[i]
+	r.sizeLimit() // records the largest geometry so far
+	if dc.SUT == "buffer" {
+		r.stepBuffer(i, op)
+	} else {
+		r.stepDecoder(i, op)
 	}
-	return nil
+	if r.fail != nil {
+		if r.owned[r.fail.Check] {
+			return r.fail, true
+		}
+		st.Inc("foreign_check_failed:" + r.fail.Check)
+		switch r.fail.Check {
+		case "refused-valid", "count-n", "off":
+			// the content model is still in step: the history goes on
+			r.fail = nil
+			return nil, false
+		}
+		return nil, true
+	}
+	return nil, false
 }
 
 func (r *DRun) stepBuffer(i int, op *DOp) {
